@@ -290,8 +290,17 @@ def parse_world():
                  z3.And(m.rawHeader == S.slice_(cx.ctx, raw, z3.IntVal(0), n), m.rawPadding == S.slice_(cx.ctx, raw, n, n + npad),
                         m.rawBody == S.slice_(cx.ctx, raw, n + npad, None))),
                 ('body decoded under the parsed signature in the byte order of the first byte', body_ok),
+                ('no body is decoded under a signature longer than 255 characters (decoding costs signature length x elements)',
+                 z3.Implies(sig.kind == 2, z3.Length(sig.s) <= 255)),
                 ('every header attribute is the value of the LAST header field carrying its code (unknown codes ignored), unset when there is none',
                  attr_is_last(m, raw, le, z3.Length(hdr_fields(raw, le)[0])))]
+
+    def long_signature(cx):
+        """the body signature the header carries (last field with code 8, whatever string type it was sent with) exceeds 255 characters"""
+        raw = cx.a('rawMessage')
+        le = le_of(raw)
+        pres, kd, st, _it = LAST(raw, le, z3.Length(hdr_fields(raw, le)[0]), ATTR_CODE['signature'])
+        return z3.And(pres, kd == 2, z3.Length(st) > 255)
 
     def loop_inv(cx):
         m = cx.L['m']
@@ -313,7 +322,8 @@ def parse_world():
     contract(w, 'txdbus.message.parseMessage', {'rawMessage': BYTES, 'oobFDs': OPAQUE}, result=Ref('DBusMessage'),
              requires=lambda cx: [],
              ensures=post,
-             raises={MarshallingError: lambda cx: z3.Or(hdr_int(cx.a('rawMessage'), le_of(cx.a('rawMessage')), 1) < 1, hdr_int(cx.a('rawMessage'), le_of(cx.a('rawMessage')), 1) > 4),
+             raises={MarshallingError: lambda cx: z3.Or(hdr_int(cx.a('rawMessage'), le_of(cx.a('rawMessage')), 1) < 1, hdr_int(cx.a('rawMessage'), le_of(cx.a('rawMessage')), 1) > 4,
+                                                        long_signature(cx)),
                      IndexError: lambda cx: z3.Length(cx.a('rawMessage')) == 0,
                      TypeError: lambda cx: z3.BoolVal(False),
                      Exception: lambda cx: z3.BoolVal(True)},
